@@ -156,7 +156,7 @@ def assembler(ctx):
         return
     key = 'bumble.hci.HCI_AclDataPacketAssembler.feed_packet'
     from collections import namedtuple
-    V = namedtuple('V', 'kind had_state data length delivered')
+    V = namedtuple('V', 'kind had_state data length delivered accepted')
 
     class D(paths.Domain):
         """kind: start/cont/other; had_state: a PDU was in progress; data/length:
@@ -181,7 +181,7 @@ def assembler(ctx):
                 tg = dotted(node.targets[0])
                 val = norm(node.value)
                 if tg == 'self.current_data':
-                    return (v._replace(data='none' if val == 'None' else ('new' if val == 'packet.data' else 'other')),)
+                    return (v._replace(data='none' if val == 'None' else ('new' if val == 'packet.data' else 'other'), accepted=v.accepted or val == 'packet.data'),)
                 if tg == 'self.l2cap_pdu_length':
                     return (v._replace(length='zero' if val == '0' else ('new' if val == 'l2cap_pdu_length' else 'other')),)
             if isinstance(node, ast.AugAssign) and dotted(node.target) == 'self.current_data':
@@ -191,15 +191,15 @@ def assembler(ctx):
             return (v,)
 
     def run(kind, had):
-        init = V(kind, had, 'old' if had else 'none', 'old' if had else 'zero', 0)
+        init = V(kind, had, 'old' if had else 'none', 'old' if had else 'zero', 0, False)
         res = paths.run(fn, D(), init)
         return {(k, s) for k, st in res.items() for s in st}
 
     # start fragment: state replaced whatever was there
     for had in (True, False):
         outs = run('start', had)
-        bad = [f'{k}: data={s.data} length={s.length}' for k, s in outs if not k.startswith('raise') and not ((s.data == 'new' and s.length == 'new') or (s.data == 'none' and s.length == 'zero' and s.delivered <= 1))]
-        R.check(not bad and bool(outs), rule, key + f' | start fragment ({"PDU in progress" if had else "idle"})', 'the start fragment replaces any partial PDU (then completes or waits)', f'a start fragment does not replace the assembler state: {bad}', p.loc(fn))
+        bad = [f'{k}: data={s.data} length={s.length}' for k, s in outs if not k.startswith('raise') and not (s.accepted and ((s.data == 'new' and s.length == 'new') or (s.data == 'none' and s.length == 'zero' and s.delivered <= 1)))]
+        R.check(not bad and bool(outs), rule, key + f' | start fragment ({"PDU in progress" if had else "idle"})', 'the start fragment replaces any partial PDU (then completes or waits)', f'a start fragment is not taken as the beginning of a new PDU in every state (a PDU cut short by the peer makes the next, well-formed one disappear): {bad}', p.loc(fn))
     # continuation without start: nothing changes, nothing delivered
     outs = run('cont', False)
     bad = [f'{k}: data={s.data} length={s.length} delivered={s.delivered}' for k, s in outs if not k.startswith('raise') and (s.data != 'none' or s.length != 'zero' or s.delivered)]
@@ -280,10 +280,9 @@ def _family_of(field: str):
     return None
 
 
-def queue_geometry(ctx):
+def queue_geometry(ctx, rule='C05.queue-geometry'):
     """Each data queue is dimensioned with the packet length and count the controller announced for *that* buffer pool."""
     R, p = ctx.r, ctx.p
-    rule = 'C05.queue-geometry'
     fn = p.find(f'{HOST}.reset')
     if fn is None:
         R.bad(rule, f'{HOST}.reset', 'anchor missing')
